@@ -150,7 +150,7 @@ class C15(Check):
                         evs.append(("release", u))
                         log.append([2, u])
             try:
-                await asyncio.wait_for(asyncio.gather(*[user(u, ex) for u, ex in enumerate(case["users"])]), 10)
+                await asyncio.wait_for(asyncio.gather(*[user(u, ex) for u, ex in enumerate(case["users"])]), 120)
             finally:
                 if tmp:
                     shutil.rmtree(tmp, ignore_errors=True)
